@@ -115,8 +115,17 @@ def consistency_case(case, fail):
 
     def run_sched(ks):
         c2, e2, d2 = decoding.build(case)
-        sim = DirectSimulation(c2, e2, d2, p, verbose=False,
-                               rng=np.random.default_rng(case['seed']))
+        # the seeded source of randomness, in the forms callers seed it: a
+        # Generator, a legacy RandomState, or numpy's global state
+        kind = case.get('rng_kind', 'generator')
+        if kind == 'randomstate':
+            rng_ = np.random.RandomState(case['seed'] % (2 ** 32))
+        elif kind == 'module':
+            np.random.seed(case['seed'] % (2 ** 32))
+            rng_ = np.random
+        else:
+            rng_ = np.random.default_rng(case['seed'])
+        sim = DirectSimulation(c2, e2, d2, p, verbose=False, rng=rng_)
         lens = []
         for k in ks:
             sim.run(k)
@@ -250,6 +259,8 @@ def eval_case(case):
         if len(fails) < 5:
             fails.append({'relation': rel, 'detail': detail})
     labels = [case['kind'], case['decoder']]
+    if case.get('rng_kind', 'generator') != 'generator':
+        labels.append('rng:' + case['rng_kind'])
     if case.get('decoder_rate') is not None and case['decoder_rate'] != case['error_rate']:
         labels.append('decoder-prior-differs-from-rate')
     aux = None
@@ -304,6 +315,7 @@ def consistency_cases(draw, max_total=60):
     if sum(sched) == 0:
         sched[-1] = 2
     case.update(kind='consistency', schedule=sched, n_once=8 if slow else 20)
+    case['rng_kind'] = draw(st.sampled_from(['generator', 'generator', 'randomstate', 'module']))
     if draw(st.integers(0, 3)) == 0:
         case['decoder_rate'] = draw(st.sampled_from([0.02, 0.1, 0.3]))
     return case
